@@ -3,3 +3,5 @@ import CvxVerif.Model.OpState
 import CvxVerif.Props.C13
 import CvxVerif.Props.C09
 import CvxVerif.Props.C10
+import CvxVerif.Props.C06
+import CvxVerif.Props.C06Present
